@@ -87,9 +87,25 @@ fn same(a: &InsertionResult, b: &InsertionResult) -> bool {
     }
 }
 
+/// The harness' own order on cost vectors (not the repository's `Ord for InsertionCost`): exact lexicographic comparison,
+/// a missing trailing component counts as zero.
+fn lex_less(x: &InsertionCost, y: &InsertionCost) -> bool {
+    let (xs, ys): (Vec<f64>, Vec<f64>) = (x.iter().collect(), y.iter().collect());
+    for i in 0..xs.len().max(ys.len()) {
+        let (p, q) = (xs.get(i).copied().unwrap_or(0.), ys.get(i).copied().unwrap_or(0.));
+        if p < q {
+            return true;
+        }
+        if p > q {
+            return false;
+        }
+    }
+    false
+}
+
 fn better(a: &InsertionResult, b: &InsertionResult) -> bool {
     match (a, b) {
-        (InsertionResult::Success(x), InsertionResult::Success(y)) => x.cost < y.cost,
+        (InsertionResult::Success(x), InsertionResult::Success(y)) => lex_less(&x.cost, &y.cost),
         (InsertionResult::Success(_), InsertionResult::Failure(_)) => true,
         _ => false,
     }
@@ -219,6 +235,7 @@ fn allowed_features() -> gen::problem::Features {
     // multi-task jobs: only one pickup + one delivery. Every other shape gets its task permutations sampled at random on
     // every evaluation (VariableJobPermutation), i.e. selection is not deterministic there and equality is not owed
     allowed.pd_only = true;
+    allowed.tie_focus = true;
     allowed
 }
 
@@ -235,9 +252,11 @@ pub fn make_case(seed: u64, tier: Tier) -> (W3Case, gen::problem::Features) {
     // goal variants inside the verdict domain (every layer's estimate of an insertion is >= 0 on metric data): orderings of
     // minimize-unassigned / minimize-tours / one routing-cost objective, also without the leading minimize-unassigned
     let mut problem = g.problem;
-    if p.chance(0.4) {
+    if p.chance(0.4) || g.features.tie_focus {
         let cost = *p.pick(&["minimize-cost", "minimize-cost", "minimize-distance", "minimize-duration"]);
-        let objs: Vec<&str> = match p.below(6) {
+        // (tie focus: a routing cost layer with float noise above layers which tell the tied candidates apart)
+        let objs: Vec<&str> = match if g.features.tie_focus { *p.pick(&[1u64, 4, 4, 6, 6]) } else { p.below(6) } {
+            6 => vec![cost, "minimize-unassigned", "minimize-tours"],
             0 => vec![cost],
             1 => vec!["minimize-tours", cost],
             2 => vec!["minimize-unassigned", cost],
